@@ -437,6 +437,11 @@ def Snd.returnLoan (S : Snd) (c : Nat) : Snd :=
   let S := S.releaseChunk c
   { S with loanCnt := S.loanCnt - 1 }
 
+def sndReturnLoan (w : World) (p : Pid) (c : Nat) : World :=
+  match getSnd w p with
+  | some S => setSnd w p (S.returnLoan c)
+  | none => w
+
 /-! ### receiver side (`receiver.rs`) -/
 
 def smGet (m : SlotMap.St Pid) (k : Nat) : Option Pid :=
@@ -694,17 +699,25 @@ def rcvRelease (w : World) (me : Pid) (h : Held) : World :=
             setConn w f me (c.setChan h.channel { x with comp := x.comp ++ [h.chunk], borrow := x.borrow - 1 })
           else w
 
-/-- apply `f` to channel `ch` of every connection in the storage (`set_channel_state`,
+/-- apply `g` to channel `ch` of connection `(f, t)` -/
+def mapChanAt (w : World) (f t : Pid) (ch : Nat) (g : Chan → Chan) : World :=
+  match getConn w f t with
+  | some c => (match c.chan ch with
+               | some x => setConn w f t (c.setChan ch (g x))
+               | none => w)
+  | none => w
+
+/-- apply `g` to channel `ch` of every connection in the storage (`set_channel_state`,
 `set_disconnect_hint`, `close_channel` of `Receiver`) -/
 def rcvMapChan (w : World) (me : Pid) (ch : Nat) (g : Chan → Chan) : List (Nat × Pid) → World
   | [] => w
-  | (_, f) :: r =>
-    let w := match getConn w f me with
-      | some c => (match c.chan ch with
-                   | some x => setConn w f me (c.setChan ch (g x))
-                   | none => w)
-      | none => w
-    rcvMapChan w me ch g r
+  | (_, f) :: r => rcvMapChan (mapChanAt w f me ch g) me ch g r
+
+/-- `rcvMapChan` over the whole connection storage of port `me` -/
+def rcvMapAll (w : World) (me : Pid) (ch : Nat) (g : Chan → Chan) : World :=
+  match getRcv w me with
+  | some R => rcvMapChan w me ch g (SlotMap.items R.storage)
+  | none => w
 
 /-- `at_least_one_channel_has_state` / `has_chunks` -/
 def rcvAnyChan (w : World) (me : Pid) (ch : Nat) (g : Chan → Bool) : List (Nat × Pid) → Bool
@@ -770,16 +783,22 @@ def serverUpdate (w : World) (s : Nat) : World :=
     if sp.ctr = w.clientReg.counter then w
     else serverForceUpdate (setSnap w (sid s) { ctr := w.clientReg.counter, slots := w.clientReg.slots }) s
 
-/-- both ports of a dropped shared state go: `Sender` and `Receiver` with all their connections -/
-def portDestroy (w : World) (me : Pid) : World :=
-  let w := match getSnd w me with
-    | some S => setSnd (sndDestroySlots w me S.conns) me { S with conns := S.conns.map fun _ => none }
-    | none => w
+/-- the `Sender` of a dropped shared state goes with all its connections -/
+def sndDestroyAll (w : World) (me : Pid) : World :=
+  match getSnd w me with
+  | some S => setSnd (sndDestroySlots w me S.conns) me { S with conns := S.conns.map fun _ => none }
+  | none => w
+
+/-- the `Receiver` of a dropped shared state goes with all its connections -/
+def rcvDestroyAll (w : World) (me : Pid) : World :=
   match getRcv w me with
   | some R =>
     setRcv (rcvDestroyKeys w me (SlotMap.items R.storage)) me
       { R with storage := SlotMap.init 0, tbr := [], conns := R.conns.map fun _ => none }
   | none => w
+
+/-- both ports of a dropped shared state go: `Sender` and `Receiver` with all their connections -/
+def portDestroy (w : World) (me : Pid) : World := rcvDestroyAll (sndDestroyAll w me) me
 
 /-- `ClientSharedState` is dropped when the `Client`, every `PendingResponse` and every `Response` is gone -/
 def clientDestroyIfUnreferenced (w : World) (c : Nat) : World :=
@@ -788,8 +807,8 @@ def clientDestroyIfUnreferenced (w : World) (c : Nat) : World :=
   | some C =>
     if C.alive || !C.pendings.isEmpty || !C.held.isEmpty || !C.ex then w
     else
-      let w := { w with clientReg := w.clientReg.remove C.slot }
-      setCl (portDestroy w (cid c)) c { C with ex := false }
+      let w := { setCl w c { C with ex := false } with clientReg := w.clientReg.remove C.slot }
+      portDestroy w (cid c)
 
 /-- `SharedServerState` is dropped when the `Server` and every `ActiveRequest` is gone -/
 def serverDestroyIfUnreferenced (w : World) (s : Nat) : World :=
@@ -798,8 +817,8 @@ def serverDestroyIfUnreferenced (w : World) (s : Nat) : World :=
   | some S =>
     if S.alive || !S.actives.isEmpty || !S.ex then w
     else
-      let w := { w with serverReg := w.serverReg.remove S.slot }
-      setSv (portDestroy w (sid s)) s { S with ex := false }
+      let w := { setSv w s { S with ex := false } with serverReg := w.serverReg.remove S.slot }
+      portDestroy w (sid s)
 
 /-! ### API operations -/
 
@@ -836,29 +855,28 @@ def connIdOf : List (Option Pid) → Pid → Nat → Option Nat
   | [], _, _ => none
   | x :: r, t, i => if x = some t then some i else connIdOf r t (i + 1)
 
+/-- the connection slots of port `p`'s sender -/
+def sndConns (w : World) (p : Pid) : List (Option Pid) :=
+  match getSnd w p with | some S => S.conns | none => []
+
+/-- the client the response connection slot of an active request leads to at the moment -/
+def respondTarget (w : World) (s : Nat) (connId : Option Nat) : Option Pid :=
+  match connId with
+  | some i => (sndConns w (sid s)).getD i none
+  | none => none
+
 /-- `ActiveRequest::is_connected` / `has_disconnect_hint`: a predicate on the channel of the
 response connection the active request points to -/
 def activeChan (w : World) (s : Nat) (connId : Option Nat) (ch : Nat) : Option Chan :=
-  match connId, getSnd w (sid s) with
-  | some i, some S =>
-    match S.conns.getD i none with
-    | some t => (match getConn w (sid s) t with | some c => c.chan ch | none => none)
-    | none => none
-  | _, _ => none
+  match respondTarget w s connId with
+  | some t => (match getConn w (sid s) t with | some c => c.chan ch | none => none)
+  | none => none
 
 /-- `ActiveRequest::finish`: `close_channel` on the response connection -/
 def activeFinish (w : World) (s : Nat) (connId : Option Nat) (ch rid : Nat) : World :=
-  match connId, getSnd w (sid s) with
-  | some i, some S =>
-    match S.conns.getD i none with
-    | some t =>
-      match getConn w (sid s) t with
-      | some c => (match c.chan ch with
-                   | some x => setConn w (sid s) t (c.setChan ch (x.close rid))
-                   | none => w)
-      | none => w
-    | none => w
-  | _, _ => w
+  match respondTarget w s connId with
+  | some t => mapChanAt w (sid s) t ch (fun x => x.close rid)
+  | none => w
 
 /-- the loop of `Server::receive` -/
 def serverReceive (w : World) (s : Nat) : Nat → World × Option RecvRes
@@ -870,10 +888,7 @@ def serverReceive (w : World) (s : Nat) : Nat → World × Option RecvRes
     | (w, .none) => (w, some .none)
     | (w, .maxBorrow) => (w, some .maxBorrow)
     | (w, .some h m) =>
-      let connId := match getSnd w (sid s) with
-        | some S => connIdOf S.conns (cid m.client) 0
-        | none => none
-      match connId with
+      match connIdOf (sndConns w (sid s)) (cid m.client) 0 with
       | some i =>
         let connected := match activeChan w s (some i) m.channel with
           | some x => x.hasState m.rid
@@ -930,16 +945,17 @@ def opCClient (w : World) (c : Nat) (ma : Option Nat) : World × String :=
                    storage := SlotMap.init (w.cfg.cExpired + w.cfg.maxServers), tbrCap := w.cfg.cExpired,
                    nChan := w.cfg.nChannels, init := .closed, cap := w.cfg.respBuf,
                    overflow := w.cfg.ovResp, maxBorrow := w.cfg.maxBorrow }
-  let C : Client := { maxActive := active, chanIds := List.range n }
   let sp : Snap := { ctr := w.serverReg.counter, slots := w.serverReg.slots }
-  let w1 := clientForceUpdate (setSnap (setRcv (setSnd (setCl w c C) (cid c) S) (cid c) R) (cid c) sp) c
-  match w1.clientReg.add (c, n), getCl w1 c with
-  | some (reg, slot), some C1 => finishPanic w ({ setCl w1 c { C1 with slot := slot } with clientReg := reg }, "ok")
-  | _, _ =>
+  let w1 := clientForceUpdate (setSnap (setRcv (setSnd w (cid c) S) (cid c) R) (cid c) sp) c
+  match w1.clientReg.add (c, n) with
+  | some (reg, slot) =>
+    -- the record of the `Client` object and its shared state
+    let C : Client := { maxActive := active, chanIds := List.range n, slot := slot }
+    finishPanic w ({ setCl w1 c C with clientReg := reg }, "ok")
+  | none =>
     -- the port is dropped again: its connections are closed, nothing else remains
     let w2 := portDestroy w1 (cid c)
-    finishPanic w ({ w2 with clients := AMap.del w2.clients c, snds := AMap.del w2.snds (cid c), rcvs := AMap.del w2.rcvs (cid c),
-                             snaps := AMap.del w2.snaps (cid c) },
+    finishPanic w ({ w2 with snds := AMap.del w2.snds (cid c), rcvs := AMap.del w2.rcvs (cid c), snaps := AMap.del w2.snaps (cid c) },
                    "err:ExceedsMaxSupportedClients")
 
 def opDClient (w : World) (c : Nat) : World × String :=
@@ -962,15 +978,15 @@ def opCServer (w : World) (s : Nat) (ml : Option Nat) : World × String :=
                    storage := SlotMap.init (w.cfg.sExpired + w.cfg.maxClients), tbrCap := w.cfg.sExpired,
                    nChan := 1, init := .id 0 false, cap := w.cfg.maxActive,
                    overflow := w.cfg.ovReq, maxBorrow := w.cfg.maxActive }
-  let V : Server := { loanPerReq := lpr }
   let sp : Snap := { ctr := w.clientReg.counter, slots := w.clientReg.slots }
-  let w1 := serverForceUpdate (setSnap (setRcv (setSnd (setSv w s V) (sid s) S) (sid s) R) (sid s) sp) s
-  match w1.serverReg.add (s, n), getSv w1 s with
-  | some (reg, slot), some V1 => finishPanic w ({ setSv w1 s { V1 with slot := slot } with serverReg := reg }, "ok")
-  | _, _ =>
+  let w1 := serverForceUpdate (setSnap (setRcv (setSnd w (sid s) S) (sid s) R) (sid s) sp) s
+  match w1.serverReg.add (s, n) with
+  | some (reg, slot) =>
+    let V : Server := { loanPerReq := lpr, slot := slot }
+    finishPanic w ({ setSv w1 s V with serverReg := reg }, "ok")
+  | none =>
     let w2 := portDestroy w1 (sid s)
-    finishPanic w ({ w2 with servers := AMap.del w2.servers s, snds := AMap.del w2.snds (sid s), rcvs := AMap.del w2.rcvs (sid s),
-                             snaps := AMap.del w2.snaps (sid s) },
+    finishPanic w ({ w2 with snds := AMap.del w2.snds (sid s), rcvs := AMap.del w2.rcvs (sid s), snaps := AMap.del w2.snaps (sid s) },
                    "err:ExceedsMaxSupportedServers")
 
 def opDServer (w : World) (s : Nat) : World × String :=
@@ -986,16 +1002,17 @@ def sendRequest (w : World) (c r ch rid chunk tag : Nat) : World × String :=
   let w0 := w
   let w := clientUpdate w c
   if w.panicked then ({ w0 with panicked := true }, "PANIC") else
-  match getCl w c, getRcv w (cid c) with
-  | some C, some R =>
-    let w := rcvMapChan w (cid c) ch (fun x => x.setState rid) (SlotMap.items R.storage)
-    let w := retrieveReturned w (cid c)
-    let slots := match getSnd w (cid c) with | some S => S.conns | none => []
-    let msg : Msg := { client := c, channel := ch, rid := rid, tag := tag }
-    let (w, cnt) := deliverAll w (cid c) 0 { chunk := chunk, msg := msg } slots 0
+  match getCl w c with
+  | some C =>
+    -- the `PendingResponse` (kept by the caller under label `r`)
     let P : Pending := { label := r, rid := rid, channel := ch, chunk := chunk, tag := tag }
-    (setCl w c { C with activeCnt := C.activeCnt + 1, pendings := C.pendings ++ [P], usedLabels := r :: C.usedLabels }, s!"ok:{cnt}")
-  | _, _ => (w, "none")
+    let w := setCl w c { C with activeCnt := C.activeCnt + 1, pendings := C.pendings ++ [P], usedLabels := r :: C.usedLabels }
+    let w := rcvMapAll w (cid c) ch (fun x => x.setState rid)
+    let w := retrieveReturned w (cid c)
+    let msg : Msg := { client := c, channel := ch, rid := rid, tag := tag }
+    let r := deliverAll w (cid c) 0 { chunk := chunk, msg := msg } (sndConns w (cid c)) 0
+    (r.1, s!"ok:{r.2}")
+  | none => (w, "none")
 
 /-- `Client::loan_uninit` + `write_payload` + `RequestMut::send` -/
 def opSend (w : World) (c r tag : Nat) : World × String :=
@@ -1038,12 +1055,12 @@ def opRecvReq (w : World) (s a : Nat) : World × String :=
     | (w1, some .none) => (w1, "none")
     | (w1, some .maxBorrow) => (w1, "err:ExceedsMaxBorrows")
     | (w1, some (.some h m)) =>
-      match getSv w1 s, getSnd w1 (sid s) with
-      | some V, some S =>
-        let A : Active := { label := a, det := h, connId := connIdOf S.conns (cid m.client) 0, msg := m }
+      match getSv w1 s with
+      | some V =>
+        let A : Active := { label := a, det := h, connId := connIdOf (sndConns w1 (sid s)) (cid m.client) 0, msg := m }
         (setSv w1 s { V with actives := V.actives ++ [A], usedLabels := a :: V.usedLabels, gRecvReq := V.gRecvReq ++ [(m.client, m.rid)] },
          s!"some:{h.origin.n}:{m.tag}")
-      | _, _ => (w1, "none")
+      | none => (w1, "none")
 
 /-- `ResponseMut::send` and the drop of the `ResponseMut` -/
 def sendResponse (w : World) (s : Nat) (A : Active) (chunk tag : Nat) : World × String :=
@@ -1052,22 +1069,13 @@ def sendResponse (w : World) (s : Nat) (A : Active) (chunk tag : Nat) : World ×
   if w.panicked then ({ w0 with panicked := true }, "PANIC") else
   let stale := match getCl w A.msg.client with | some C => !C.ex | none => true
   let msg : Msg := { rid := A.msg.rid, server := s, tag := tag, gClient := A.msg.client, gSeq := A.gSent, gStale := stale }
-  let w := match A.connId with
-    | some i =>
-      let w := retrieveReturned w (sid s)
-      match getSnd w (sid s) with
-      | some S =>
-        (match S.conns.getD i none with
-         | some t => (deliverTo w (sid s) t A.msg.channel { chunk := chunk, msg := msg }).1
-         | none => w)
-      | none => w
+  let w := match A.connId with | some _ => retrieveReturned w (sid s) | none => w
+  let w := match respondTarget w s A.connId with
+    | some t => (deliverTo w (sid s) t A.msg.channel { chunk := chunk, msg := msg }).1
     | none => w
   -- the `ResponseMut` is dropped
   let w := updActive w s A.label fun x => { x with loans := x.loans - 1, gSent := x.gSent + 1 }
-  let w := match getSnd w (sid s) with
-    | some S => setSnd w (sid s) (S.returnLoan chunk)
-    | none => w
-  (w, "ok")
+  (sndReturnLoan w (sid s) chunk, "ok")
 
 /-- `ActiveRequest::loan_uninit` + `write_payload` + `ResponseMut::send` -/
 def opRespond (w : World) (s a tag : Nat) : World × String :=
@@ -1143,14 +1151,10 @@ def opDPending (w : World) (c r : Nat) : World × String :=
     match findPending C r with
     | none => (w, "none")
     | some P =>
+      let w := rcvMapAll w (cid c) P.channel (fun x => x.close P.rid)
       let w := setCl w c { C with activeCnt := C.activeCnt - 1, pendings := C.pendings.filter (·.label ≠ r),
                                   chanIds := C.chanIds ++ [P.channel] }
-      let w := match getRcv w (cid c) with
-        | some R => rcvMapChan w (cid c) P.channel (fun x => x.close P.rid) (SlotMap.items R.storage)
-        | none => w
-      let w := match getSnd w (cid c) with
-        | some S => setSnd w (cid c) (S.returnLoan P.chunk)
-        | none => w
+      let w := sndReturnLoan w (cid c) P.chunk
       (clientDestroyIfUnreferenced w c, "ok")
 
 /-- `PendingResponse::is_connected` -/
@@ -1180,9 +1184,9 @@ def opHint (w : World) (c r : Nat) : World × String :=
   match getCl w c with
   | none => (w, "none")
   | some C =>
-    match findPending C r, getRcv w (cid c) with
-    | some P, some R => (rcvMapChan w (cid c) P.channel (fun x => x.setHint P.rid) (SlotMap.items R.storage), "ok")
-    | _, _ => (w, "none")
+    match findPending C r with
+    | some P => (rcvMapAll w (cid c) P.channel (fun x => x.setHint P.rid), "ok")
+    | none => (w, "none")
 
 /-- `ActiveRequest::has_disconnect_hint` -/
 def opAHint (w : World) (s a : Nat) : World × String :=
